@@ -851,6 +851,13 @@ struct Dumper
 		F["l"]	  = lineOf(FD->getLocation());
 		F["lend"] = lineOf(FD->getEndLoc());
 		F["ret"]  = tyStr(FD->getReturnType());
+		{
+			// a function that hands out a mutable reference or pointer (to storage the caller can then write)
+			QualType RT = FD->getReturnType();
+			if((RT->isLValueReferenceType() && !RT.getNonReferenceType().isConstQualified()) ||
+			   (RT->isPointerType() && !RT->getPointeeType().isConstQualified()))
+				F["retmut"] = true;
+		}
 		if(isLambda)
 			F["lambda"] = true;
 		else if(isFileLocal(FD))
